@@ -294,3 +294,63 @@ theorem C12r_rows (T : Nataf.Model ℝ) (x a : Vec ℝ) (Hx : Mat ℝ) (hn : 0 <
     rw [hfirst h0 m (Finset.mem_range.mp hm)]
 
 end FF.SormPipe
+
+namespace FF.SormPipe
+open FF.Linalg FF.Gram Finset
+
+/-- in standard normal space the gradient is not changed by the pull-back -/
+theorem gradU_standard (T : Nataf.Model ℝ) (hT : Standard T) (x a : Vec ℝ) (j : Nat) (hj : j < T.dim) :
+    Form.gradU T x a j = a j := by
+  unfold Form.gradU
+  rw [tmulVec_real]
+  have : ∀ i ∈ range T.dim, T.L i j * ((T.marg i).dxdz (x i) * a i) = (if i = j then 1 else 0) * a i := by
+    intro i hi
+    have hi' := Finset.mem_range.mp hi
+    rw [hT.1 i hi', hT.2 i j hi' hj]
+    simp [Nataf.Marg.dxdz]
+  rw [Finset.sum_congr rfl this, sum_ite_mul T.dim a j hj]
+
+/-- **the paraboloid clause, end to end on the executable model.**  Standard normal space of dimension `n ≥ 1`; `e` a unit vector and
+`v 0 … v (n-2)` completing it to an orthonormal basis; at the design point the gradient of the paraboloid
+`β − ⟨e,u⟩ + ½ Σ κ_j ⟨v_j,u⟩²` is `−e` and its Hessian `Σ κ_j v_j v_jᵀ`.  Then, for the rows `r_i` the model itself builds
+(argmax column, coincidence test, Gram–Schmidt), every entry `(i, l)` of the curvature matrix equals `Σ_j R_ij κ_j R_lj` with
+`R_ij = ⟨r_i, v_j⟩`, and `R Rᵀ = 1`: the main curvatures are the `κ_j` (`C12_similar_charpoly`), whatever the rotation
+and the order of the axes. -/
+theorem C12p_paraboloid_model (T : Nataf.Model ℝ) (hT : Standard T) (hn : 0 < T.dim) (x : Vec ℝ) (e : Vec ℝ) (v : Nat → Vec ℝ)
+    (κ : Nat → ℝ) (he : dot T.dim e e = 1)
+    (hcomplete : ∀ k m, k < T.dim → m < T.dim →
+      (∑ j ∈ range (T.dim - 1), v j k * v j m) + e k * e m = if k = m then 1 else 0) :
+    let a : Vec ℝ := fun i => -e i
+    let Hx : Mat ℝ := fun k m => ∑ j ∈ range (T.dim - 1), κ j * v j k * v j m
+    let rows := (curvatureBlock T x a Hx).rows
+    ∀ i l (hi : i < rows.length) (hl : l < rows.length), i < T.dim - 1 → l < T.dim - 1 →
+      (∑ k ∈ range T.dim, ∑ m ∈ range T.dim, rows[i] k * (hessU T x a Hx k m / 1) * rows[l] m
+          = ∑ j ∈ range (T.dim - 1), dot T.dim rows[i] (v j) * κ j * dot T.dim rows[l] (v j)) ∧
+      (∑ j ∈ range (T.dim - 1), dot T.dim rows[i] (v j) * dot T.dim rows[l] (v j) = if i = l then 1 else 0) := by
+  intro a Hx rows i l hi hl hin hln
+  -- the U-space gradient is `-e`, of norm 1, and the alignment vector is `e`
+  have hgrad : ∀ j, j < T.dim → Form.gradU T x a j = -e j := fun j hj => gradU_standard T hT x a j hj
+  have hnorm : Linalg.norm T.dim (Form.gradU T x a) = 1 := by
+    rw [norm_real]
+    have : ∑ i ∈ range T.dim, Form.gradU T x a i * Form.gradU T x a i = 1 := by
+      rw [← he, dot_real]
+      exact Finset.sum_congr rfl (fun j hj => by rw [hgrad j (Finset.mem_range.mp hj)]; ring)
+    rw [this, Real.sqrt_one]
+  have halign : ∀ j, j < T.dim → alignOf T x a j = e j := by
+    intro j hj
+    unfold alignOf
+    rw [hnorm, hgrad j hj, one_real]; ring
+  obtain ⟨_, hrows⟩ := C12r_rows T x a Hx hn (by rw [hnorm]; exact one_ne_zero)
+  have hri := hrows i l hi hl hin hln
+  have hrl := hrows l i hl hi hln hin
+  -- orthogonality to `e`
+  have hie : dot T.dim rows[i] e = 0 := by
+    rw [← hri.2, dot_real, dot_real]
+    exact Finset.sum_congr rfl (fun m hm => by rw [halign m (Finset.mem_range.mp hm)])
+  have hle : dot T.dim rows[l] e = 0 := by
+    rw [← hrl.2, dot_real, dot_real]
+    exact Finset.sum_congr rfl (fun m hm => by rw [halign m (Finset.mem_range.mp hm)])
+  obtain ⟨h1, h2⟩ := C12p_paraboloid_entry T hT x a e v κ hcomplete rows[i] rows[l] hie hle
+  exact ⟨h1, by rw [h2]; exact hri.1⟩
+
+end FF.SormPipe
